@@ -39,7 +39,7 @@ static uint64_t rnd(Rng* r)
 static int below(Rng* r, int n) { return n > 0 ? (int) (rnd(r) % (uint64_t) n) : 0; }
 static void jitter(Rng* r) { int j = below(r, 8); if (j == 0) sched_yield(); else if (j == 1) usleep(50 + below(r, 300)); }
 
-static struct { int seed, mode, conns, apps, rounds, reent, raw, stop, close, big; } P;
+static struct { int seed, mode, conns, apps, rounds, reent, raw, stop, close, big, win; } P;
 static volatile int finished_flag = 0;
 static const char* current_kind = "?";
 static char cb_note[128];
@@ -61,15 +61,15 @@ static void on_alarm(int sig)
 #define NOTSAN __attribute__((no_sanitize_thread, noinline))
 
 /* ------------------------------------------------------------------ frame helpers (peer side) */
-typedef struct { Socket s; uint8_t buf[65536]; int len; int vs, vr; Rng rng; int id; int gotStartCon, gotStopCon; long iframes; } Peer;
+typedef struct { Socket s; uint8_t buf[65536]; int len; int vs, vr; Rng rng; int id; int gotStartCon, gotStopCon; long iframes; int acked, maxwin; } Peer;
 
 NOTSAN static void peer_send_u(Peer* p, uint8_t c) { uint8_t m[6] = {0x68, 4, c, 0, 0, 0}; Sim_feed(p->s, m, 6); }
-NOTSAN static void peer_send_s(Peer* p) { uint8_t m[6] = {0x68, 4, 1, 0, (uint8_t) ((p->vr % 128) * 2), (uint8_t) (p->vr / 128)}; Sim_feed(p->s, m, 6); }
+NOTSAN static void peer_send_s(Peer* p) { p->acked = p->vr; uint8_t m[6] = {0x68, 4, 1, 0, (uint8_t) ((p->vr % 128) * 2), (uint8_t) (p->vr / 128)}; Sim_feed(p->s, m, 6); }
 NOTSAN static void peer_send_i(Peer* p, const uint8_t* asdu, int n, Rng* r)
 {
     uint8_t m[260]; m[0] = 0x68; m[1] = (uint8_t) (4 + n);
     m[2] = (uint8_t) ((p->vs % 128) * 2); m[3] = (uint8_t) (p->vs / 128);
-    m[4] = (uint8_t) ((p->vr % 128) * 2); m[5] = (uint8_t) (p->vr / 128);
+    m[4] = (uint8_t) ((p->vr % 128) * 2); m[5] = (uint8_t) (p->vr / 128); p->acked = p->vr;
     memcpy(m + 6, asdu, n); p->vs = (p->vs + 1) % 32768;
     if (r && below(r, 3) == 0) { int cut = 1 + below(r, 5 + n); Sim_feed(p->s, m, cut); usleep(100); Sim_feed(p->s, m + cut, 6 + n - cut); }
     else Sim_feed(p->s, m, 6 + n);
@@ -278,8 +278,8 @@ static void c_raw(void* p, uint8_t* msg, int n, bool sent) { (void) p; (void) ms
 static void* cli_app(void* arg)
 {
     Rng r = { (uint64_t) P.seed * 6151u + (uint64_t) (intptr_t) arg * 12289u };
-    for (int i = 0; i < P.rounds * 3 && !FLAG_GET(cli_stop); i++) {
-        int op = below(&r, 10);
+    for (int i = 0; i < P.rounds * (P.win > 0 ? 40 : 3) && !FLAG_GET(cli_stop); i++) {
+        int op = P.win > 0 ? 3 : below(&r, 10);      /* window watch: every application thread sends as fast as it can */
         if (op < 3) { if (CS104_Connection_sendInterrogationCommand(con, CS101_COT_ACTIVATION, 1, IEC60870_QOI_STATION)) __sync_fetch_and_add(&n_sent, 1); }
         else if (op < 5) { if (CS104_Connection_sendTestCommand(con, 1)) __sync_fetch_and_add(&n_sent, 1); }
         else if (op < 6) { InformationObject sc = (InformationObject) SingleCommand_create(NULL, 5000, i & 1, false, 0);
@@ -300,7 +300,7 @@ NOTSAN static void* cli_peer(void* arg)
     p->s = sim_last_client_socket;
     if (!p->s) return NULL;
     int started = 0;
-    for (int i = 0; i < P.rounds * 2 && !p->s->destroyed; i++) {
+    for (int i = 0; i < P.rounds * (P.win > 0 ? 400 : 2) && !p->s->destroyed; i++) {
         /* act as the server end: answer U frames, acknowledge, send monitoring data */
         int n = Sim_takeTx(p->s, p->buf + p->len, (int) sizeof p->buf - p->len); p->len += n;
         int pos = 0;
@@ -308,7 +308,9 @@ NOTSAN static void* cli_peer(void* arg)
             if (p->buf[pos] != 0x68) { pos++; continue; }
             int l = p->buf[pos + 1] + 2; if (p->len - pos < l) break;
             uint8_t c = p->buf[pos + 2];
-            if ((c & 1) == 0) { int ns = (p->buf[pos + 2] + p->buf[pos + 3] * 256) / 2; p->vr = (ns + 1) % 32768; p->iframes++; }
+            if ((c & 1) == 0) { int ns = (p->buf[pos + 2] + p->buf[pos + 3] * 256) / 2; p->vr = (ns + 1) % 32768; p->iframes++;
+                                /* I-frames received beyond the last N(R) this peer SENT: a lower bound of what the client has in flight */
+                                int w_ = (p->vr - p->acked + 32768) % 32768; if (w_ > p->maxwin) p->maxwin = w_; }
             else if (c == 0x07) { peer_send_u(p, 0x0b); started = 1; }
             else if (c == 0x13) { peer_send_u(p, 0x23); started = 0; }
             else if (c == 0x43) peer_send_u(p, 0x83);
@@ -316,6 +318,7 @@ NOTSAN static void* cli_peer(void* arg)
         }
         memmove(p->buf, p->buf + pos, p->len - pos); p->len -= pos;
         int op = below(r, 8);
+        if (P.win > 0) { if (p->vr != p->acked) peer_send_s(p); usleep(30); continue; }     /* window watch: acknowledge at once, nothing else */
         if (started && op < 4) peer_send_i(p, sp, 10, r);
         else if (op < 6) peer_send_s(p);
         else if (op < 7) peer_send_u(p, 0x43);
@@ -333,6 +336,7 @@ static void run_cli(void)
     CS104_Connection_setASDUReceivedHandler(con, c_received, NULL);
     CS104_Connection_setConnectionHandler(con, c_event, NULL);
     if (P.raw) CS104_Connection_setRawMessageHandler(con, c_raw, NULL);
+    if (P.win > 0) { CS104_APCIParameters ap = CS104_Connection_getAPCIParameters(con); ap->k = P.win; }
     static Peer peer; memset(&peer, 0, sizeof peer); peer.rng.s = (uint64_t) P.seed * 40503u;
     pthread_t pt, at[4];
     FLAG_SET(cli_stop, 0);
@@ -352,6 +356,8 @@ static void run_cli(void)
     long ifr = peer.iframes;
     if (peer.s) Sim_freeSocket(peer.s);
     if (sim_sem_errors) printf("sem %d %s%s\n", sim_sem_errors, sim_sem_error_text, cb_note);
+    if (P.win > 0 && peer.maxwin > P.win)
+        printf("window %d the peer held %d I-frames it had not acknowledged yet, k=%d: several application threads passed the window test together\n", peer.maxwin, peer.maxwin, P.win);
     printf("done cli sent=%ld recv=%ld query=%ld events=%ld raw=%ld iframes=%ld\n", n_sent, n_recv, n_query, n_events, n_rawcb, ifr);
 }
 
@@ -370,7 +376,7 @@ int main(void)
             char key[32]; int val;
             if (sscanf(tok, "%31[^=]=%d", key, &val) != 2) continue;
 #define K(n) if (!strcmp(key, #n)) P.n = val;
-            K(seed) K(mode) K(conns) K(apps) K(rounds) K(reent) K(raw) K(stop) K(close) K(big)
+            K(seed) K(mode) K(conns) K(apps) K(rounds) K(reent) K(raw) K(stop) K(close) K(big) K(win)
         }
         if (P.conns < 1) P.conns = 1; if (P.conns > 4) P.conns = 4;
         if (P.apps < 1) P.apps = 1; if (P.apps > 4) P.apps = 4;
